@@ -371,6 +371,7 @@ class Evaluator:
         s.assume_finite = True             # np.isfinite(x) folds to True (recorded by the rules as an assumption)
         s.raises: list = []                # pruned raise branches: guard, polarity, exception name, path condition
         s._pc: list = []
+        s.atom_methods: dict = {}   # (atom, method name) -> (Module, FunctionDef): methods of a typed atom that are inlined (self = the atom)
         s.builds: list = []      # every array-build term created, in order of creation (dicts: name, term, mod, line)
         s._build = None          # array-build mode: {'gens': [...], 'pc0': n, 'recs': {name: [...]}, 'ok': bool}
         s._undecided = 0                   # nesting depth of undecided guards (facts are learnt only at depth 0)
@@ -378,7 +379,7 @@ class Evaluator:
     def fresh(s):
         """evaluator with the same configuration but none of the facts / stores learnt while evaluating code (used for specifications)"""
         e = Evaluator(s.prog, s.real, s._init_facts, s.depth_limit)
-        e.opaque_fns = set(s.opaque_fns); e.opaque_classes = set(s.opaque_classes); e.self_class = s.self_class; e.self_atom = s.self_atom; e.integer = set(s.integer); e.mod_facts = dict(s.mod_facts); e.assume_finite = s.assume_finite
+        e.opaque_fns = set(s.opaque_fns); e.opaque_classes = set(s.opaque_classes); e.self_class = s.self_class; e.self_atom = s.self_atom; e.integer = set(s.integer); e.mod_facts = dict(s.mod_facts); e.assume_finite = s.assume_finite; e.atom_methods = dict(s.atom_methods)
         return e
 
     def learn(s, g, polarity: bool, exc=None, top=True):
@@ -534,7 +535,9 @@ class Evaluator:
             if isinstance(a, tuple) and isinstance(b, tuple): return a + b
             if isinstance(a, str) and isinstance(b, str): return a + b
             if isinstance(a, (list, Comp)) and isinstance(b, (list, Comp)) or (isinstance(a, Opq) and a.k[0] in ('sorted', 'concat', 'list')) or (isinstance(b, Opq) and b.k[0] in ('sorted', 'concat', 'list')):
-                return Opq('concat', a, b)
+                parts_ = []
+                for x_ in (a, b): parts_ += list(x_.k[1:]) if (isinstance(x_, Opq) and x_.k[0] == 'concat') else [x_]
+                return Opq('concat', *parts_)
         if isinstance(op, ast.Mult) and isinstance(a, list) and isinstance(b, Poly) and b.real_const() is not None:
             return a * int(b.real_const())
         if isinstance(op, ast.Mod) and isinstance(a, str): return Opq('fstr', a)
@@ -604,7 +607,7 @@ class Evaluator:
     def truth(s, v):
         """truthiness of a term as guard"""
         if isinstance(v, bool): return v
-        if isinstance(v, Opq) and s.facts: return s.refold(v)
+        if isinstance(v, Opq) and (s.facts or s.assumed): return s.refold(v)
         if v is None: return False
         if isinstance(v, (list, tuple, dict, str)): return len(v) > 0
         if isinstance(v, Poly):
@@ -811,6 +814,9 @@ class Evaluator:
             return tuple(s.elem_of(x, level) for x in it.k[1:])
         if isinstance(it, Opq) and it.k and it.k[0] == 'enumerate':
             return (Poly.atom(('idx', level, tkey(it.k[1]))), s.elem_of(it.k[1], level))
+        pr = _product_args(it)
+        if pr is not None:
+            return tuple(s.elem_of(x, (level, i) if len(pr) > 1 else level) for i, x in enumerate(pr))
         if isinstance(it, Opq) and it.k and it.k[0] == 'items':
             return (Poly.atom(('keyof', level, tkey(it.k[1]))), Poly.atom(('valof', level, tkey(it.k[1]))))
         if isinstance(it, Comp) and it.kind in ('list', 'gen') and len(it.gens) == 1 and not it.gens[0][1]:
@@ -892,6 +898,10 @@ class Evaluator:
                 return v[f(lo):f(up):f(st)]
             return Poly.atom(('slice', atomname(v), tkey(lo), tkey(up), tkey(st)))
         k = s.ev(e.slice, env, mod, depth)
+        if isinstance(v, Rec) and v.clsref is not None and depth < s.depth_limit:
+            gi = s.prog.find_member(v.clsref[0], v.clsref[1], '__getitem__') if isinstance(v.clsref, tuple) else None
+            if gi and isinstance(gi[1], ast.FunctionDef):
+                return s.call_fn(gi[1], gi[0], [v, k], {}, {'__parent__': None}, depth + 1)
         return s.getitem(v, k)
 
     def getitem(s, v, k):
@@ -909,6 +919,12 @@ class Evaluator:
             return Opq('IndexError', i)
         if isinstance(v, Comp) and isinstance(k, Poly) and k.real_const() is not None:
             return Opq('item', v, int(k.real_const()))
+        if isinstance(v, Comp) and v.kind == 'dict' and len(v.gens) == 1 and isinstance(v.elt, (tuple, list)) and len(v.elt) == 2 and isinstance(k, Poly):
+            # {x: g(x) for x in it if f(x)}[k]  ==  g(k)  on the paths where the lookup does not raise
+            beta = s.elem_of(v.gens[0][0], 0)
+            if isinstance(beta, Poly) and same(v.elt[0], beta) and isinstance(v.elt[1], Poly):
+                r = term_from_key(subst_key(tkey(v.elt[1]), tkey(beta), tkey(k), beta.as_atom(), k.as_atom()))
+                if r is not None: return r
         kk = k if isinstance(k, str) else (int(k.real_const()) if isinstance(k, Poly) and k.real_const() is not None and k.real_const().denominator == 1 else tkey(k))
         if isinstance(v, Poly) and v.as_atom() is not None and isinstance(kk, (str, int)):
             st = s.stores.get((v.as_atom(), ('[]', kk)))
@@ -967,6 +983,9 @@ class Evaluator:
             mem = s.prog.find_member(s.self_class[0], s.self_class[1], attr)
             if mem and isinstance(mem[1], ast.FunctionDef) and not s.prog.is_property(mem[1]):
                 return s.call_fn(mem[1], mem[0], [recv] + list(args), kw, {'__parent__': None}, depth + 1)
+        if s.atom_methods and isinstance(recv, Poly) and (recv.as_atom(), attr) in s.atom_methods and depth < s.depth_limit:
+            mm_, fn_ = s.atom_methods[(recv.as_atom(), attr)]
+            return s.call_fn(fn_, mm_, [recv] + list(args), kw, {'__parent__': None}, depth + 1)
         if isinstance(recv, Rec):
             fv = s.getattr(recv, attr, mod, depth)
             if isinstance(fv, Closure): return s.apply(fv, args, kw, mod, depth, node)
@@ -1018,6 +1037,10 @@ class Evaluator:
                 if nm.endswith('functools.partial') or nm == 'functools.partial':
                     return Opq('partial', *args, *[Opq('kw', k, v) for k, v in sorted(kw.items())])
                 if nm.split('.')[-1] in ('deepcopy', 'copy') and args: return args[0]
+                if nm in ('itertools.product', 'product') and args:
+                    rp = kw.get('repeat')
+                    n = int(rp.real_const()) if isinstance(rp, Poly) and rp.real_const() is not None else (1 if rp is None else None)
+                    if n is not None and set(kw) <= {'repeat'}: return Opq('product', *(list(args) * n))
                 return Poly.atom(('call', ('ext', nm), tuple(tkey(a) for a in args), tuple(sorted((k, tkey(v)) for k, v in kw.items()))))
         if isinstance(fv, Opq) and fv.k and fv.k[0] == 'partial':
             base = fv.k[1]; pre = [x for x in fv.k[2:] if not (isinstance(x, Opq) and x.k[0] == 'kw')]
@@ -1075,6 +1098,7 @@ class Evaluator:
             if isinstance(a, dict): return [k.v if isinstance(k, _HK) else k for k in a]
             if isinstance(a, Comp) and a.kind == 'set': return Opq('list', a)
             if isinstance(a, Comp): return Comp(a.elt, a.gens, 'list')
+            if isinstance(a, Opq) and a.k and a.k[0] == 'keys' and len(a.k) == 2 and name == 'list': return Opq('list', a.k[1])       # list(d.keys()) == list(d)
             return Opq('list', a)
         if name == 'list' and not args: return []
         if name == 'set' and not args: return Opq('set')
@@ -1155,6 +1179,15 @@ class Evaluator:
             return Cond(a.g, s.npcall(name, [a.a] + list(args[1:]), kw), s.npcall(name, [a.b] + list(args[1:]), kw))
         if name == 'isfinite': return True if s.assume_finite else Opq('isfinite', a)
         # block assembly normal form: hcat(parts...) / vcat(parts...), nested same-kind joins flattened
+        if name in ('hstack', 'vstack', 'concatenate', 'row_stack') and isinstance(a, (Comp, Opq)) and (isinstance(a, Comp) or a.k[0] == 'concat'):
+            # stacking a comprehension (or a concatenation of lists / comprehensions): one block of rows per generator
+            segs = list(a.k[1:]) if isinstance(a, Opq) else [a]
+            flat_ = []
+            for sg_ in segs:
+                if isinstance(sg_, (list, tuple)): flat_ += list(sg_)
+                elif isinstance(sg_, Comp) and sg_.kind in ('list', 'gen'): flat_.append(Opq('rows', Comp(sg_.elt, sg_.gens, 'list')))
+                else: flat_ = None; break
+            if flat_: a = flat_; args = [a] + list(args[1:])
         if name in ('hstack', 'vstack', 'concatenate', 'block', 'column_stack', 'row_stack') and isinstance(a, (list, tuple)) and a:
             axis = kw.get('axis', args[1] if len(args) > 1 else None)
             axc = axis.real_const() if isinstance(axis, Poly) else axis
@@ -1171,9 +1204,13 @@ class Evaluator:
                 parts = []
                 for x in a:
                     if isinstance(x, Opq) and x.k and x.k[0] == kind: parts += list(x.k[1:])
+                    elif _is_empty_array(x, kind): continue            # np.ndarray(shape=(0, n)): the empty seed of a stacking loop
                     else: parts.append(x)
-                return parts[0] if len(parts) == 1 else Opq(kind, *parts)
+                if not parts: return a[0]
+                return parts[0] if len(parts) == 1 and not (isinstance(parts[0], Opq) and parts[0].k[0] == 'rows') else Opq(kind, *parts)
         if name == 'ones': return Poly.const(1)
+        if name in ('zeros', 'empty', 'zeros_like', 'empty_like', 'ndarray') and args and not isinstance(a, (Cond,)):
+            return Opq('np.' + name, *args, *[Opq('kw', k, v) for k, v in sorted(kw.items())])
         if name in ('vectorize', 'array', 'float') and len(args) == 1:
             if isinstance(a, Opq) and a.k and a.k[0] == 'Σ': return a
             return a
@@ -1426,6 +1463,15 @@ class Evaluator:
             s.loops.append({'iter': it, 'summary': summary, 'init': init, 'site': getattr(st, 'lineno', 0),
                             'node': st, 'env': env, 'mod': mod, 'assigned': [nm for nm in assigned if nm not in tnames]})
             for nm in summary:
+                st_ = summary[nm]
+                car = Poly.atom(('carried', nm))
+                if isinstance(st_, Opq) and st_.k and st_.k[0] in ('vcat', 'hcat') and len(st_.k) >= 3 and same(st_.k[1], car) \
+                        and not any(repr(('carried', nm)) in repr(tkey(x)) for x in st_.k[2:]) and [x for x in assigned if x not in tnames] == [nm]:
+                    # X = stack([X, row(i)]) for i in it:  the rows of the comprehension appended to the seed
+                    rows_ = [Opq('rows', Comp(x, [(it, [])], 'list')) for x in st_.k[2:]]
+                    if len(rows_) == 1:
+                        s.rebind(nm, s.npcall('vstack' if st_.k[0] == 'vcat' else 'hstack', [[init[nm]] + rows_], {}), env)
+                        continue
                 s.rebind(nm, Opq('loop', it, Opq('init', init[nm]), Opq('step', summary[nm])), env)
         else:
             for nm in assigned: s.rebind(nm, Opq('?', 'while-carried ' + nm), env)
@@ -1665,6 +1711,40 @@ ARRAY_HEADS = ('np.zeros', 'np.empty', 'np.ndarray', 'np.zeros_like', 'np.empty_
 
 def _is_arraylike(v):
     return isinstance(v, Opq) and bool(v.k) and v.k[0] in ARRAY_HEADS
+
+
+def term_from_key(k):
+    """polynomial (or string / number) denoted by a key"""
+    if isinstance(k, tuple) and k[:1] == ('poly',): return Poly({mono: c for mono, c in k[1:]})
+    if isinstance(k, (str, int)): return k
+    return None
+
+
+def subst_key(k, old, new, old_atom=None, new_atom=None):
+    """replace a sub-key everywhere (also where the old term occurs as a bare atom in an atom-name slot)"""
+    if k == old: return new
+    if old_atom is not None and k == old_atom: return new_atom if new_atom is not None else new
+    if isinstance(k, tuple): return tuple(subst_key(x, old, new, old_atom, new_atom) for x in k)
+    return k
+
+
+def _is_empty_array(x, kind):
+    """np.zeros / empty / ndarray with a literal 0 in the stacked dimension"""
+    if not (isinstance(x, Opq) and x.k and x.k[0] in ('np.zeros', 'np.empty', 'np.ndarray')): return False
+    sh = None
+    for a in x.k[1:]:
+        if isinstance(a, Opq) and a.k[0] == 'kw' and a.k[1] == 'shape': sh = a.k[2]
+        elif not (isinstance(a, Opq) and a.k[0] == 'kw') and sh is None: sh = a
+    if isinstance(sh, (tuple, list)) and sh:
+        d = sh[0] if kind == 'vcat' else sh[-1]
+        return isinstance(d, Poly) and d.is_zero()
+    return False
+
+
+def _product_args(it):
+    """iterables of an itertools.product(...) term (repeat= expanded), else None"""
+    if isinstance(it, Opq) and it.k and it.k[0] == 'product': return list(it.k[1:])
+    return None
 
 
 def _pair_set(v):
